@@ -135,8 +135,39 @@ def _alarm(signum, frame):
     raise WallTimeout()
 
 
+SLOW_CONFIRMED = [0]      # calls that exceeded the line budget under load but completed in the confirmation run
+
+
 def call_guarded(fn, wall_s=2.0, step_budget=3_000_000):
     """Run fn(); returns ('ok', value) | ('exc', exception) | ('nonterm', steps).
+
+    Guard against load-dependent verdicts: the counted re-run only happens when the first run exceeded the wall clock,
+    which on a busy machine also happens to legitimate, merely slow calls.  A call is therefore reported as
+    non-terminating only if it exceeds the line budget AND a third, untraced run does not complete within a long wall
+    clock (>= 30 s) either."""
+    r = _call_guarded(fn, wall_s, step_budget)
+    if r[0] != "nonterm":
+        return r
+    old = signal.signal(signal.SIGALRM, _alarm)
+    signal.setitimer(signal.ITIMER_REAL, max(30.0, wall_s * 15))
+    try:
+        try:
+            v = fn()
+            SLOW_CONFIRMED[0] += 1
+            return ("ok", v)
+        except WallTimeout:
+            return r
+        except Exception as e:
+            SLOW_CONFIRMED[0] += 1
+            return ("exc", e)
+        finally:
+            signal.setitimer(signal.ITIMER_REAL, 0)
+    finally:
+        signal.signal(signal.SIGALRM, old)
+
+
+def _call_guarded(fn, wall_s=2.0, step_budget=3_000_000):
+    """one guarded run: wall-clock alarm, then a deterministic re-run under a line counter
 
     A wall-clock alarm only *triggers a re-run* under a deterministic line counter;
     only exceeding the line budget classifies the call as non-terminating.
@@ -229,7 +260,10 @@ def _init_worker(modname, tier):
 
 def _run_one(shard):
     try:
+        SLOW_CONFIRMED[0] = 0
         acc = _MOD.run_shard(shard, _TIER)
+        if SLOW_CONFIRMED[0]:
+            acc.extra["slow_calls_confirmed_terminating (over the line budget on a busy machine, completed untraced)"] += SLOW_CONFIRMED[0]
         return ("ok", acc)
     except BaseException:
         return ("err", f"shard {shard!r}:\n{traceback.format_exc()}")
